@@ -1,5 +1,6 @@
 import Rtsp.Proofs.FrameRT3
 import Rtsp.Proofs.FrameRT4
+import Rtsp.Proofs.FrameResync
 import Rtsp.Proofs.FrameLimits3
 import Rtsp.Proofs.B64Stream
 /-
@@ -125,6 +126,20 @@ theorem strict_prefix_needs_more (up : Bytes → Option Bytes) (pre suf : Bytes)
     exact absurd this.2 hs
   | more hd => exact ⟨hd, rfl⟩
   | err => have h1 := this.2 hp; rw [h] at h1; cases h1
+
+/-- **resync**: `Conn.Read` discards byte by byte what it cannot classify; garbage `g` in front of a
+well-formed element (no byte of `g`, taken with its successor, is `$`, `RT` or a request prefix) is
+skipped and the element is delivered. -/
+theorem resync_skips_garbage (up : Bytes → Option Bytes) (g : Bytes) (e : Elem) (rest : Bytes)
+    (he : WellFormed up e) (b : UInt8) (t : Bytes) (hm : marshalElem e = b :: t) (hg : Garbage g b) :
+    readElem up (g ++ marshalElem e ++ rest) = .ok e rest :=
+  Rtsp.Frame.resync_skips_garbage up g e rest he b t hm hg
+
+theorem garbage_iff (a b : UInt8) : Skippable a b ↔ (a ≠ MAGIC ∧ ¬(a = 82 ∧ b = 84) ∧ isReqPrefix a b = false) := Iff.rfl
+
+/-- non-vacuity of `resync_skips_garbage`: `FOO\r\n` in front of a frame -/
+example : Garbage [70, 79, 79, 13, 10] 36 :=
+  ⟨by decide, by decide, by decide, by decide, (by decide : Skippable 10 36)⟩
 
 /-! ## Carriers -/
 
@@ -383,5 +398,85 @@ example (rest : Bytes) : readElem (fun u => some u)
       (marshalHeader [(kContentLength, [toDec 1073741824])] ++ rest))))) = .err :=
   limits_enforced_body _ 200 (str "OK") _ 1073741824 rest (by decide) (by decide) (by decide) oneGiB_headerOK
     (by decide) (by decide)
+
+/-! ### further non-vacuity examples (each applies the theorem to a concrete instance) -/
+
+theorem frame_wellFormed : ∀ m ∈ [Elem.frame sampleFrame], WellFormed (fun u => some u) m := by
+  intro m hm
+  simp only [List.mem_singleton] at hm
+  subst hm
+  exact ⟨by decide, by decide⟩
+
+theorem flatten_singletons (l : Bytes) : (l.map fun b => [b]).flatten = l := by
+  induction l with
+  | nil => rfl
+  | cons a r ih => simp [ih]
+
+/-- `roundtrip_any_chunking` on 1-byte reads -/
+example : readAll (fun u => some u) [] ((serializeAll [Elem.frame sampleFrame]).map fun b => [b])
+    = ([Elem.frame sampleFrame], .eof) :=
+  roundtrip_any_chunking _ _ frame_wellFormed _ (flatten_singletons _)
+
+/-- `strict_prefix_needs_more`: the first three bytes of a frame -/
+example : ∃ hard, readElem (fun u => some u) [36, 255, 0] = .more hard :=
+  strict_prefix_needs_more (fun u => some u) [36, 255, 0] [4, 36, 0, 1, 2] (.frame sampleFrame) (by decide) (by decide)
+
+/-- `tunnel_roundtrip`: the frame written in two writes (inside the 4-byte header), each write one
+padded block, the encoded stream read byte by byte -/
+example : tunnelRead (fun u => some u)
+    ((encode [36, 255, 0] ++ encode [4, 36, 0, 1, 2]).map fun b => [b]) = ([Elem.frame sampleFrame], .eof) :=
+  tunnel_roundtrip _ _ frame_wellFormed [[36, 255, 0], [4, 36, 0, 1, 2]] _ (by decide) (by
+    rw [flatten_singletons]; simp)
+
+/-- `websocket_roundtrip`: one message, handed out in two pieces -/
+example : readAll (fun u => some u) [] [[36, 255, 0, 4, 36], [0, 1, 2]] = ([Elem.frame sampleFrame], .eof) :=
+  websocket_roundtrip _ _ frame_wellFormed [[36, 255, 0, 4, 36, 0, 1, 2]] _ (by decide) (by decide)
+
+/-- `limits_output` on a delivered element -/
+example : ElemBounded (fun u => some u) (.frame sampleFrame) :=
+  limits_output _ (marshalFrame sampleFrame) _ [] (by decide)
+
+/-- `limits_enforced_token` -/
+example (more : Bytes) : readLim SP 3 ([65, 66, 67] ++ more) = .err :=
+  limits_enforced_token SP 3 [65, 66, 67] more (by decide) (by decide)
+
+/-- `limits_enforced_url`: `OPTIONS` followed by 2048 bytes without a space -/
+example : readElem (fun u => some u) (79 :: 80 :: (str "TIONS" ++ SP :: List.replicate 2048 97)) = .err :=
+  limits_enforced_url _ 79 80 (str "TIONS") (List.replicate 2048 97) (by decide) (by decide) (by decide)
+    (by rw [List.length_replicate]; decide)
+    (by intro h; have := List.mem_of_mem_take h; rw [List.mem_replicate] at this; exact absurd this.2 (by decide))
+
+/-- `limits_enforced_key`: 511 bytes without a colon after the first byte of a key -/
+example (acc : Header) : parseHeaders 255 acc (88 :: List.replicate 511 120) = .err :=
+  limits_enforced_key 254 acc 88 (List.replicate 511 120) (by decide) (by rw [List.length_replicate]; decide)
+    (by intro h; have := List.mem_of_mem_take h; rw [List.mem_replicate] at this; exact absurd this.2 (by decide))
+
+/-- `limits_enforced_value`: a value of 2048 bytes -/
+example (acc : Header) : parseHeaders 255 acc (kCSeq ++ [COLON, SP] ++ List.replicate 2048 49) = .err :=
+  limits_enforced_value 254 acc kCSeq (List.replicate 2048 49)
+    ⟨by decide, 67, str "Seq", by decide, by decide, by decide, by decide⟩
+    (by intro h; have h2 : (List.replicate 2048 (49 : UInt8)).head? = some 49 := rfl; rw [h2] at h; exact absurd h (by decide))
+    (by rw [List.length_replicate]; decide)
+    (by intro h; have := List.mem_of_mem_take h; rw [List.mem_replicate] at this; exact absurd this.2 (by decide))
+
+/-- `limits_enforced_header_count_request` / `limits_enforced_body_request`: the request forms -/
+example (rest : Bytes) : readElem (fun u => some u)
+    (marshalRequest { method := str "OPTIONS", url := none, header := [(kCSeq, List.replicate 256 (str "1"))], body := [] } ++ rest) = .err :=
+  limits_enforced_header_count_request _ _ rest ⟨79, 80, str "TIONS", by decide, by decide⟩ (by decide) (by decide)
+    (by intro u hu; cases hu) manyValues_shape (by
+      show headerMaxEntryCount < entryCount [(kCSeq, List.replicate 256 (str "1"))]
+      rw [entryCount_single, List.length_replicate]; decide)
+
+example (rest : Bytes) : readElem (fun u => some u)
+    (str "ANNOUNCE" ++ SP :: (star ++ SP :: (rtsp10 ++ CR :: (LF ::
+      (marshalHeader [(kContentLength, [toDec 1073741824])] ++ rest))))) = .err :=
+  limits_enforced_body_request _ (str "ANNOUNCE") none _ 1073741824 rest ⟨65, 78, str "NOUNCE", by decide, by decide⟩
+    (by decide) (by decide) (by intro u hu; cases hu) oneGiB_headerOK (by decide) (by decide)
+
+/-- `resync_skips_garbage` applied -/
+example (rest : Bytes) : readElem (fun u => some u) ([70, 79, 79, 13, 10] ++ marshalElem (.frame sampleFrame) ++ rest)
+    = .ok (.frame sampleFrame) rest :=
+  resync_skips_garbage _ _ _ rest (by exact ⟨by decide, by decide⟩) 36 _ rfl
+    ⟨by decide, by decide, by decide, by decide, (by decide : Skippable 10 36)⟩
 
 end Rtsp.C04
